@@ -14,7 +14,7 @@
    ones over Flocq's BinarySingleNaN (the same statements are used by the C19 development). *)
 From Coq Require Import ZArith Reals Lia Lra Bool Psatz.
 From Flocq Require Import Core FIX Ulp Round_NE Relative BinarySingleNaN.
-From ST Require Import Base.Ints Base.F64 Model.NtpTime Model.Units.
+From ST Require Import Base.Ints Base.F64 Model.NtpTime Model.Units Model.UnitsOracle.
 Open Scope R_scope.
 
 Notation emin := (SpecFloat.emin prec emax).
@@ -589,4 +589,347 @@ Lemma sysclk_drift_1ns dn d :
 Proof.
   intros Hn Hd Hq. apply sysclk_drift_within_1ns; [|exact Hq].
   change (2^50) with 1125899906842624 in Hq. unfold drift_range. change (2^62) with 4611686018427387904. lia.
+Qed.
+
+
+(* ==== frequency <-> scaled ppm ==== *)
+Open Scope R_scope.
+
+Lemma rnd_rel_abs x : x = 0 \/ bpow radix2 (-1022) <= Rabs x -> Rabs (rnd x - x) <= u * Rabs x.
+Proof.
+  intros [H|H].
+  - subst x. rewrite rnd_0, Rminus_0_r, Rabs_R0. lra.
+  - pose proof (relative_error_N_FLT radix2 emin prec Hprec (fun x => negb (Z.even x)) x) as E.
+    change (FLT_exp emin prec) with fexp in E.
+    replace (emin + prec - 1)%Z with (-1022)%Z in E by reflexivity. specialize (E H).
+    replace (- prec + 1)%Z with (-52)%Z in E by reflexivity.
+    change (bpow radix2 (-52)) with (/ IZR (Zpower_pos 2 52)) in E.
+    change (Zpower_pos 2 52) with 4503599627370496%Z in E.
+    pose proof (Rabs_pos x). unfold u. lra.
+Qed.
+
+Lemma rnd_opp x : rnd (- x) = - rnd x.
+Proof. apply round_NE_opp. Qed.
+
+Lemma rnd_sign_pos x : 0 <= x -> 0 <= rnd x.
+Proof. exact (rnd_nonneg x). Qed.
+
+Lemma rnd_sign_neg x : x <= 0 -> rnd x <= 0.
+Proof. intros H. rewrite <- rnd_0. apply rnd_le. exact H. Qed.
+
+Definition CS : R := 65536000000.
+
+Lemma scale_spec : fin scale_const = true /\ Rv scale_const = CS.
+Proof. unfold scale_const, CS. apply f_of_int_spec. lia. Qed.
+
+(* FreqFromScaledPPM on the kernel's range and a bit beyond: RN(x / 65536e6), exact conversion of x *)
+Lemma freq_from_ppm_spec x : (Z.abs x < 2^53)%Z ->
+  fin (freq_from_scaled_ppm x) = true /\ Rv (freq_from_scaled_ppm x) = rnd (IZR x / CS).
+Proof.
+  intros Hx. destruct (f_of_int_spec x Hx) as [Fx Rx]. destruct scale_spec as [Fc Rc].
+  unfold freq_from_scaled_ppm.
+  destruct (fdiv_spec (f_of_int x) scale_const 18 Fx) as [Fd Rd].
+  - rewrite Rc. unfold CS. lra.
+  - lia.
+  - rewrite Rx, Rc. unfold CS, Rdiv. rewrite Rabs_mult, <- abs_IZR.
+    rewrite (Rabs_pos_eq (/ 65536000000)) by (left; apply Rinv_0_lt_compat; lra).
+    assert (IZR (Z.abs x) <= 9007199254740992) by (apply IZR_le; lia).
+    change (bpow radix2 18) with (IZR (2^18)). change (2^18)%Z with 262144%Z.
+    apply Rmult_le_reg_r with 65536000000; [lra|]. rewrite Rmult_assoc, Rinv_l by lra. lra.
+  - rewrite Rx, Rc in Rd. split; assumption.
+Qed.
+
+(* the round trip: b = RN(RN(x/C) * C) is within 1/2 of x, the conversion truncates toward zero *)
+Lemma freq_roundtrip_real x : (Z.abs x <= 32768000)%Z ->
+  exists b, scaled_ppm_from_freq (freq_from_scaled_ppm x) = Ztrunc b /\ Rabs (b - IZR x) < / 2 /\
+            (0 <= IZR x -> 0 <= b) /\ (IZR x <= 0 -> b <= 0).
+Proof.
+  intros Hx. destruct (freq_from_ppm_spec x) as [Fa Ra]; [lia|]. destruct scale_spec as [Fc Rc].
+  set (a := freq_from_scaled_ppm x) in *.
+  assert (HX : Rabs (IZR x) <= 32768000) by (rewrite <- abs_IZR; apply IZR_le; exact Hx).
+  assert (CSpos : 0 < CS) by (unfold CS; lra).
+  assert (Iv : 0 < / CS) by (apply Rinv_0_lt_compat; exact CSpos).
+  pose proof u_range as Hu.
+  (* division *)
+  assert (T1 : IZR x / CS = 0 \/ bpow radix2 (-1022) <= Rabs (IZR x / CS)).
+  { destruct (Z.eq_dec x 0) as [->|N]; [left; unfold Rdiv; apply Rmult_0_l|right].
+    apply tiny_le. unfold Rdiv. rewrite Rabs_mult, (Rabs_pos_eq (/ CS)) by lra.
+    assert (1 <= Rabs (IZR x)) by (rewrite <- abs_IZR; apply IZR_le; lia).
+    apply Rle_trans with (1 * / CS); [|apply Rmult_le_compat_r; lra].
+    rewrite Rmult_1_l. unfold CS. apply Rinv_le_contravar; lra. }
+  pose proof (rnd_rel_abs _ T1) as E1. rewrite <- Ra in E1.
+  (* a * C against x *)
+  assert (E1' : Rabs (Rv a * CS - IZR x) <= u * Rabs (IZR x)).
+  { replace (Rv a * CS - IZR x) with ((Rv a - IZR x / CS) * CS) by (field; lra).
+    rewrite Rabs_mult, (Rabs_pos_eq CS) by lra.
+    apply Rle_trans with (u * Rabs (IZR x / CS) * CS); [apply Rmult_le_compat_r; lra|].
+    unfold Rdiv. rewrite Rabs_mult, (Rabs_pos_eq (/ CS)) by lra. right. field. lra. }
+  assert (B1 : Rabs (Rv a * CS) <= 32768001).
+  { replace (Rv a * CS) with ((Rv a * CS - IZR x) + IZR x) by ring.
+    eapply Rle_trans; [apply Rabs_triang|]. nra. }
+  destruct (fmul_spec a scale_const 25 Fa Fc) as [Fm Rm]; [lia| |].
+  { rewrite Rc. change (bpow radix2 25) with (IZR (2^25)). change (2^25)%Z with 33554432%Z. lra. }
+  rewrite Rc in Rm.
+  assert (T2 : Rv a * CS = 0 \/ bpow radix2 (-1022) <= Rabs (Rv a * CS)).
+  { destruct (Z.eq_dec x 0) as [->|N].
+    - left. rewrite Ra. unfold Rdiv. rewrite Rmult_0_l, rnd_0. ring.
+    - right. apply tiny_le.
+      assert (1 <= Rabs (IZR x)) by (rewrite <- abs_IZR; apply IZR_le; lia).
+      assert (Rabs (IZR x) - Rabs (Rv a * CS - IZR x) <= Rabs (Rv a * CS)).
+      { pose proof (Rabs_triang_inv (IZR x) (IZR x - Rv a * CS)) as Tr.
+        replace (IZR x - (IZR x - Rv a * CS)) with (Rv a * CS) in Tr by ring.
+        rewrite (Rabs_minus_sym (IZR x)) in Tr. exact Tr. }
+      apply Rle_trans with (/ 2); [apply Rinv_le_contravar; lra|]. nra. }
+  pose proof (rnd_rel_abs _ T2) as E2. rewrite <- Rm in E2.
+  set (b := Rv (fmul a scale_const)) in *.
+  exists b. split; [|split; [|split]].
+  - unfold scaled_ppm_from_freq. apply f_to_i64_spec; [exact Fm|]. fold b.
+    assert (Hb : Rabs b < 32768002 + 1).
+    { replace b with ((b - Rv a * CS) + Rv a * CS) by ring. eapply Rle_lt_trans; [apply Rabs_triang|]. nra. }
+    assert (Z.abs (Ztrunc b) <= 32768002)%Z.
+    { destruct (Rle_or_lt 0 b) as [P|N].
+      - rewrite Ztrunc_floor by exact P. rewrite Rabs_pos_eq in Hb by exact P.
+        assert (0 <= Zfloor b)%Z by (apply Zfloor_lub; exact P).
+        assert (Zfloor b < 32768002 + 1)%Z by (apply lt_IZR; rewrite plus_IZR; eapply Rle_lt_trans; [apply Zfloor_lb|exact Hb]).
+        lia.
+      - rewrite Ztrunc_ceil by lra. rewrite Rabs_left in Hb by exact N.
+        assert (Zceil b <= 0)%Z by (apply Zceil_glb; lra).
+        assert (- 32768002 - 1 < Zceil b)%Z.
+        { apply lt_IZR. rewrite minus_IZR. eapply Rlt_le_trans; [|apply Zceil_ub]. lra. }
+        lia. }
+    unfold min_i64, max_i64. lia.
+  - replace (b - IZR x) with ((b - Rv a * CS) + (Rv a * CS - IZR x)) by ring.
+    eapply Rle_lt_trans; [apply Rabs_triang|]. nra.
+  - intros P. rewrite Rm. apply rnd_nonneg. apply Rmult_le_pos; [|lra].
+    rewrite Ra. apply rnd_nonneg. apply Rmult_le_pos; lra.
+  - intros N. rewrite Rm. apply rnd_sign_neg.
+    assert (Rv a <= 0) by (rewrite Ra; apply rnd_sign_neg; unfold Rdiv; nra). nra.
+Qed.
+
+Lemma freq_roundtrip x : (Z.abs x <= 32768000)%Z ->
+  let r := scaled_ppm_from_freq (freq_from_scaled_ppm x) in
+  ((0 <= x -> x - 1 <= r <= x) /\ (x <= 0 -> x <= r <= x + 1))%Z.
+Proof.
+  intros Hx. cbv zeta. destruct (freq_roundtrip_real x Hx) as [b [E [Hb [Sp Sn]]]]. rewrite E.
+  apply Rabs_def2 in Hb. destruct Hb as [Hb1 Hb2]. split; intros S.
+  - assert (P : 0 <= b) by (apply Sp; apply IZR_le; exact S).
+    rewrite Ztrunc_floor by exact P. pose proof (Zfloor_lb b). pose proof (Zfloor_ub b). split.
+    + assert (x - 2 < Zfloor b)%Z; [|lia]. apply lt_IZR. rewrite minus_IZR. lra.
+    + assert (Zfloor b < x + 1)%Z; [|lia]. apply lt_IZR. rewrite plus_IZR. lra.
+  - assert (N : b <= 0) by (apply Sn; apply IZR_le; exact S).
+    rewrite Ztrunc_ceil by exact N. pose proof (Zceil_ub b). pose proof (Zceil_lb b). split.
+    + assert (x - 1 < Zceil b)%Z; [|lia]. apply lt_IZR. rewrite minus_IZR. lra.
+    + assert (Zceil b < x + 2)%Z; [|lia]. apply lt_IZR. rewrite plus_IZR. lra.
+Qed.
+
+Lemma freq_roundtrip_oracle x :
+  C18_freq_ok x (scaled_ppm_from_freq (freq_from_scaled_ppm x)) = true.
+Proof.
+  unfold C18_freq_ok. destruct (Z.leb_spec (Z.abs x) 32768000) as [H|H]; [|reflexivity].
+  pose proof (freq_roundtrip x H) as [A B]. cbv zeta in A, B. apply Z.leb_le. lia.
+Qed.
+
+(* ---- decoded finite floats: value as a quotient of integers ---- *)
+Lemma finite_val s m e H :
+  Rv (B754_finite s m e H) = (if s then -1 else 1) * (IZR (Zpos m) * bpow radix2 e).
+Proof.
+  cbn [B2R]. unfold F2R. cbn [Fnum Fexp]. destruct s; cbn [cond_Zopp].
+  - change (Z.opp (Zpos m)) with (- Zpos m)%Z. rewrite opp_IZR. ring.
+  - ring.
+Qed.
+
+Lemma pow2_max_pos e : 0 < IZR (2 ^ Z.max 0 e).
+Proof. apply IZR_lt. apply Z.pow_pos_nonneg; lia. Qed.
+
+Lemma bpow_split e : bpow radix2 e = IZR (2 ^ Z.max 0 e) / IZR (2 ^ Z.max 0 (- e)).
+Proof.
+  destruct (Z_le_gt_dec 0 e) as [P|N].
+  - rewrite Z.max_r by lia. rewrite (Z.max_l 0 (- e)) by lia. change (2 ^ 0)%Z with 1%Z.
+    rewrite <- (IZR_Zpower radix2 e P). change (Zpower radix2 e) with (2 ^ e)%Z. field.
+  - rewrite Z.max_l by lia. rewrite (Z.max_r 0 (- e)) by lia. change (2 ^ 0)%Z with 1%Z.
+    replace e with (- (- e))%Z at 1 by lia. rewrite bpow_opp.
+    rewrite <- (IZR_Zpower radix2 (- e)) by lia. change (Zpower radix2 (- e)) with (2 ^ (- e))%Z.
+    unfold Rdiv. ring.
+Qed.
+
+Lemma ND_val m e :
+  IZR (Zpos m * ppm_scale * 2 ^ Z.max 0 e) = IZR (Zpos m) * bpow radix2 e * CS * IZR (2 ^ Z.max 0 (- e)).
+Proof.
+  rewrite !mult_IZR, (bpow_split e). unfold ppm_scale, CS. field.
+  apply Rgt_not_eq. apply pow2_max_pos.
+Qed.
+
+(* int64(RN(V)) for 0 <= V < 2^62 *)
+Lemma trunc_rnd_pos V : 0 <= V < 4611686018427387904 ->
+  let a := Ztrunc (rnd V) in
+  (0 <= a < 2^63)%Z /\ IZR a <= V * (1 + u) /\ V * (1 - u) < IZR a + 1.
+Proof.
+  intros [V0 V1]. cbv zeta. pose proof u_range as Hu.
+  assert (C0 : 0 <= rnd V) by (apply rnd_nonneg; exact V0).
+  rewrite Ztrunc_floor by exact C0.
+  pose proof (Zfloor_lb (rnd V)) as L. pose proof (Zfloor_ub (rnd V)) as U.
+  assert (A0 : (0 <= Zfloor (rnd V))%Z) by (apply Zfloor_lub; exact C0).
+  destruct (Rlt_or_le V (/ 2)) as [S|B].
+  - assert (C1 : rnd V <= / 2).
+    { rewrite <- (rnd_id (/ 2)); [apply rnd_le; lra|]. change (/ 2) with (bpow radix2 (-1)). apply fmt_bpow. lia. }
+    assert (Zfloor (rnd V) < 1)%Z by (apply lt_IZR; lra).
+    replace (Zfloor (rnd V)) with 0%Z in * by lia. split; [lia|]. split; nra.
+  - assert (T : V = 0 \/ bpow radix2 (-1022) <= V) by (right; apply tiny_le; lra).
+    pose proof (rnd_rel V T) as [R1 R2].
+    split; [split; [exact A0|]|split; lra].
+    apply lt_IZR. change (2 ^ 63)%Z with 9223372036854775808%Z. nra.
+Qed.
+
+Lemma Ztrunc_opp_R x : Ztrunc (- x) = (- Ztrunc x)%Z.
+Proof. apply Ztrunc_opp. Qed.
+
+(* ScaledPPMFromFreq meets its one-directional oracle on every float64 *)
+Lemma ppm_of_freq_oracle f : C18_ppm_of_freq_ok f (scaled_ppm_from_freq f) = true.
+Proof.
+  destruct f as [s|s| |s m e H]; [|unfold C18_ppm_of_freq_ok; reflexivity|unfold C18_ppm_of_freq_ok; reflexivity|].
+  - destruct s; vm_compute; reflexivity.
+  - unfold C18_ppm_of_freq_ok. cbv zeta.
+    set (N := (Zpos m * ppm_scale * 2 ^ Z.max 0 e)%Z). set (D := (2 ^ Z.max 0 (- e))%Z).
+    destruct (Z.ltb_spec N (2 ^ 62 * D)) as [Rg|Rg]; [|reflexivity].
+    pose proof (pow2_max_pos (- e)) as Dpos. fold D in Dpos.
+    pose proof (ND_val m e) as EN. fold N D in EN.
+    set (V := IZR (Zpos m) * bpow radix2 e * CS) in *.
+    assert (V0 : 0 <= V).
+    { unfold V, CS. apply Rmult_le_pos; [apply Rmult_le_pos; [apply IZR_le; lia|apply bpow_ge_0]|lra]. }
+    assert (V1 : V < 4611686018427387904).
+    { apply IZR_lt in Rg. rewrite mult_IZR in Rg. change (IZR (2 ^ 62)) with 4611686018427387904 in Rg.
+      rewrite EN in Rg. apply Rmult_lt_reg_r with (IZR D); assumption. }
+    destruct (trunc_rnd_pos V (conj V0 V1)) as [[A0 A1] [A2 A3]]. cbv zeta in *.
+    set (a := Ztrunc (rnd V)) in *.
+    destruct scale_spec as [Fc Rc].
+    assert (Ff : fin (B754_finite s m e H) = true) by reflexivity.
+    assert (Ep : Rv (B754_finite s m e H) * CS = (if s then -1 else 1) * V).
+    { rewrite finite_val. unfold V. ring. }
+    destruct (fmul_spec (B754_finite s m e H) scale_const 62 Ff Fc) as [Fm Rm]; [lia| |].
+    { rewrite Rc, Ep. change (bpow radix2 62) with (IZR (2^62)). change (2^62)%Z with 4611686018427387904%Z.
+      destruct s; [replace (-1 * V) with (- V) by ring; rewrite Rabs_Ropp|rewrite Rmult_1_l]; rewrite Rabs_pos_eq; lra. }
+    rewrite Rc, Ep in Rm.
+    assert (Er : scaled_ppm_from_freq (B754_finite s m e H) = (if s then - a else a)%Z).
+    { unfold scaled_ppm_from_freq. rewrite f_to_i64_spec; [|exact Fm|]; rewrite Rm.
+      - destruct s; [replace (-1 * V) with (- V) by ring; rewrite rnd_opp, Ztrunc_opp_R|rewrite Rmult_1_l]; reflexivity.
+      - change (2 ^ 63)%Z with 9223372036854775808%Z in A1. unfold min_i64, max_i64.
+        destruct s; [replace (-1 * V) with (- V) by ring; rewrite rnd_opp, Ztrunc_opp_R|rewrite Rmult_1_l]; fold a; lia. }
+    rewrite Er.
+    assert (Ea : Z.abs (if s then - a else a) = a) by (destruct s; lia). rewrite Ea.
+    pose proof u_range as Hu.
+    assert (Hu52 : u <= / 4503599627370496) by (unfold u; apply Rinv_le_contravar; lra).
+    apply andb_true_iff; split; [apply andb_true_iff; split|].
+    + destruct s; apply Z.leb_le; lia.
+    + apply Z.leb_le. apply le_IZR. rewrite !mult_IZR, minus_IZR, plus_IZR. change (IZR (2 ^ 52)) with 4503599627370496.
+      rewrite EN.
+      assert (IZR a * IZR D <= V * (1 + / 4503599627370496) * IZR D).
+      { apply Rmult_le_compat_r; [lra|]. nra. }
+      nra.
+    + apply Z.leb_le. apply le_IZR. rewrite !mult_IZR, minus_IZR, plus_IZR. change (IZR (2 ^ 52)) with 4503599627370496.
+      rewrite EN.
+      assert (V * (1 - / 4503599627370496) * IZR D <= (IZR a + 1) * IZR D).
+      { apply Rmult_le_compat_r; [lra|]. nra. }
+      nra.
+Qed.
+
+(* float64(int64) in general: one rounding *)
+Lemma f_of_int_gen z : (Z.abs z <= 2^63)%Z -> fin (f_of_int z) = true /\ Rv (f_of_int z) = rnd (IZR z).
+Proof.
+  intros Hz. unfold f_of_int.
+  pose proof (binary_normalize_correct prec emax Hprec Hmax mode_NE z 0 false) as C.
+  cbn [round_mode] in C. cbv zeta in C.
+  assert (E : F2R (Float radix2 z 0) = IZR z) by (unfold F2R; cbn [Fnum Fexp bpow]; lra).
+  rewrite E in C. rewrite Rlt_bool_true in C.
+  - destruct C as [C1 [C2 _]]. split; assumption.
+  - apply Rle_lt_trans with (bpow radix2 63); [|apply bpow_lt_emax; lia].
+    apply rnd_abs_le; [apply fmt_bpow; lia|].
+    rewrite <- abs_IZR. change (bpow radix2 63) with (IZR (2^63)). apply IZR_le. exact Hz.
+Qed.
+
+(* FreqFromScaledPPM on every int64: g * 65536e6 is x up to 2^-51 relative, same sign *)
+Lemma freq_of_ppm_real x : in_i64 x -> x <> 0%Z ->
+  fin (freq_from_scaled_ppm x) = true /\
+  Rabs (Rv (freq_from_scaled_ppm x) * CS - IZR x) <= Rabs (IZR x) * / 2251799813685248.
+Proof.
+  intros Hx Nz. unfold in_i64, min_i64, max_i64 in Hx.
+  destruct (f_of_int_gen x) as [Fy Ry]; [change (2^63)%Z with 9223372036854775808%Z; lia|].
+  destruct scale_spec as [Fc Rc]. pose proof u_range as Hu.
+  assert (CSpos : 0 < CS) by (unfold CS; lra).
+  assert (Iv : 0 < / CS) by (apply Rinv_0_lt_compat; exact CSpos).
+  assert (X1 : 1 <= Rabs (IZR x)) by (rewrite <- abs_IZR; apply IZR_le; lia).
+  assert (X2 : Rabs (IZR x) <= 9223372036854775808) by (rewrite <- abs_IZR; apply IZR_le; lia).
+  set (y := Rv (f_of_int x)) in *.
+  assert (Ey : Rabs (y - IZR x) <= u * Rabs (IZR x)).
+  { rewrite Ry. apply rnd_rel_abs. right. apply tiny_le. lra. }
+  assert (By : Rabs y <= 2 * Rabs (IZR x)).
+  { replace y with ((y - IZR x) + IZR x) by ring. eapply Rle_trans; [apply Rabs_triang|]. nra. }
+  assert (Ly : Rabs (IZR x) / 2 <= Rabs y).
+  { pose proof (Rabs_triang_inv (IZR x) (IZR x - y)) as Tr.
+    replace (IZR x - (IZR x - y)) with y in Tr by ring. rewrite (Rabs_minus_sym (IZR x)) in Tr. nra. }
+  unfold freq_from_scaled_ppm.
+  destruct (fdiv_spec (f_of_int x) scale_const 29 Fy) as [Fd Rd].
+  - rewrite Rc. lra.
+  - lia.
+  - rewrite Rc. fold y. unfold Rdiv. rewrite Rabs_mult, (Rabs_pos_eq (/ CS)) by lra.
+    change (bpow radix2 29) with (IZR (2^29)). change (2^29)%Z with 536870912%Z.
+    apply Rmult_le_reg_r with CS; [exact CSpos|]. rewrite Rmult_assoc, Rinv_l by lra. unfold CS. lra.
+  - rewrite Rc in Rd. fold y in Rd. split; [exact Fd|].
+    set (g := Rv (fdiv (f_of_int x) scale_const)) in *.
+    assert (T : y / CS = 0 \/ bpow radix2 (-1022) <= Rabs (y / CS)).
+    { right. apply tiny_le. unfold Rdiv. rewrite Rabs_mult, (Rabs_pos_eq (/ CS)) by lra.
+      apply Rle_trans with (/ 2 * / CS); [|apply Rmult_le_compat_r; lra].
+      rewrite <- Rinv_mult. unfold CS. apply Rinv_le_contravar; lra. }
+    pose proof (rnd_rel_abs _ T) as Eg. rewrite <- Rd in Eg.
+    assert (Eg' : Rabs (g * CS - y) <= u * Rabs y).
+    { replace (g * CS - y) with ((g - y / CS) * CS) by (field; lra).
+      rewrite Rabs_mult, (Rabs_pos_eq CS) by lra.
+      apply Rle_trans with (u * Rabs (y / CS) * CS); [apply Rmult_le_compat_r; lra|].
+      unfold Rdiv. rewrite Rabs_mult, (Rabs_pos_eq (/ CS)) by lra. right. field. lra. }
+    replace (g * CS - IZR x) with ((g * CS - y) + (y - IZR x)) by ring.
+    eapply Rle_trans; [apply Rabs_triang|].
+    assert (u * 4 <= / 2251799813685248) by (unfold u; lra). nra.
+Qed.
+
+Lemma freq_of_ppm_oracle x : in_i64 x -> C18_freq_of_ppm_ok x (freq_from_scaled_ppm x) = true.
+Proof.
+  intros Hx. destruct (Z.eq_dec x 0) as [->|Nz]; [vm_compute; reflexivity|].
+  destruct (freq_of_ppm_real x Hx Nz) as [Fg Eg].
+  assert (X1 : 1 <= Rabs (IZR x)) by (rewrite <- abs_IZR; apply IZR_le; lia).
+  remember (freq_from_scaled_ppm x) as g eqn:Hg. clear Hg.
+  assert (Gn : Rv g * CS <> 0).
+  { intros Z0. rewrite Z0 in Eg. unfold Rminus in Eg. rewrite Rplus_0_l, Rabs_Ropp in Eg. nra. }
+  destruct g as [s|s| |s m e H]; try discriminate Fg.
+  { exfalso. apply Gn. cbn [B2R]. ring. }
+  unfold C18_freq_of_ppm_ok. cbv zeta.
+  set (N := (Zpos m * ppm_scale * 2 ^ Z.max 0 e)%Z). set (D := (2 ^ Z.max 0 (- e))%Z).
+  pose proof (pow2_max_pos (- e)) as Dpos. fold D in Dpos.
+  pose proof (ND_val m e) as EN. fold N D in EN.
+  set (V := IZR (Zpos m) * bpow radix2 e * CS) in *.
+  assert (V0 : 0 < V).
+  { unfold V, CS. apply Rmult_lt_0_compat; [apply Rmult_lt_0_compat; [apply IZR_lt; lia|apply bpow_gt_0]|lra]. }
+  assert (Ep : Rv (B754_finite s m e H) * CS = (if s then -1 else 1) * V).
+  { rewrite finite_val. unfold V. ring. }
+  rewrite Ep in Eg.
+  (* sign and |.| *)
+  assert (Sg : (if s then IZR x < 0 else 0 < IZR x) /\ Rabs (V - Rabs (IZR x)) <= Rabs (IZR x) * / 2251799813685248).
+  { destruct s.
+    - replace (-1 * V - IZR x) with (- (V + IZR x)) in Eg by ring. rewrite Rabs_Ropp in Eg.
+      destruct (Rle_or_lt 0 (IZR x)) as [P|Ng].
+      + exfalso. rewrite (Rabs_pos_eq (IZR x)) in * by exact P. rewrite Rabs_pos_eq in Eg by lra. nra.
+      + split; [exact Ng|]. rewrite (Rabs_left (IZR x)) in * by exact Ng.
+        replace (V - - IZR x) with (V + IZR x) by ring. exact Eg.
+    - rewrite Rmult_1_l in Eg.
+      destruct (Rle_or_lt (IZR x) 0) as [Ng|P].
+      + exfalso. rewrite (Rabs_left1 (IZR x)) in * by exact Ng. rewrite Rabs_pos_eq in Eg by lra. nra.
+      + split; [exact P|]. rewrite (Rabs_pos_eq (IZR x)) in * by lra. exact Eg. }
+  destruct Sg as [Sg Ev].
+  apply andb_true_iff; split.
+  - destruct s; [apply Z.ltb_lt|apply Z.ltb_lt]; apply lt_IZR; exact Sg.
+  - apply Z.leb_le. apply le_IZR. rewrite !mult_IZR, abs_IZR, minus_IZR, mult_IZR, abs_IZR.
+    change (IZR (2 ^ 51)) with 2251799813685248. rewrite EN.
+    replace (V * IZR D - Rabs (IZR x) * IZR D) with ((V - Rabs (IZR x)) * IZR D) by ring.
+    rewrite Rabs_mult, (Rabs_pos_eq (IZR D)) by lra.
+    assert (Rabs (V - Rabs (IZR x)) * IZR D <= Rabs (IZR x) * / 2251799813685248 * IZR D).
+    { apply Rmult_le_compat_r; lra. }
+    nra.
 Qed.
